@@ -82,6 +82,7 @@ class ClassInfo(object):
         self.bases = list(bases)
         self.builtin = builtin
         self.outer = None
+        self.closure = None
         self.members = {}
         if node is not None:
             for st in node.body:
